@@ -80,6 +80,7 @@ func (o *Operations) Update(
 		}
 		hdr.PAXRecords[records.STFSRecordVersion] = records.STFSRecordVersion1
 		hdr.PAXRecords[records.STFSRecordAction] = records.STFSRecordActionUpdate
+		delete(hdr.PAXRecords, records.STFSRecordReplacesName) // An update never renames, even if the entry has been moved before
 
 		var f io.ReadSeekCloser
 		if file.Info.Mode().IsRegular() && replace && (file.Info.Size() > 0 || skipSizeCheck) {
